@@ -44,7 +44,7 @@ def queries(tier):
     quick = tier == 'quick'
     for bits in (8, 16, 32, 64):
         names = [r[1] for r in WR if r[3] == bits]
-        for pre in ([1] if quick else [0, 1, 3]):
+        for pre in ([1] if quick else ([0, 1, 3] if bits == 16 else [0, 1])):
             qs.append(Q('layout_w%d_pre%d' % (bits, pre), 'h_layout.c', {'BITS': bits, 'PRE': pre}, unwind=14,
                         desc='put_X/pput_X (StringWriter, BufferWriter) for X in {%s} (accessor symbolic): exact big/little-endian bytes and width; get_X/pget_X round trip + cursor where StringReader has X' % ','.join(names),
                         bounds='all %d-bit values, %d filler byte(s) in front, every offset in a 12-byte buffer' % (bits, pre)))
@@ -66,12 +66,12 @@ def queries(tier):
     # harness 4: bit streams
     for m in ([0, 1, 7, 8, 9, 20] if quick else list(range(0, 25)) + [31, 32, 33]):
         qs.append(Q('bitwriter_m%d' % m, 'h_bits.c', {'MODE': 0, 'M': m}, unwind=m + 20, desc='BitWriter: %d symbolic bits, optional truncate(t) with any t: MSB-first packing, zero tail, size()' % m, bounds='%d bits, t any 64-bit value' % m))
-    for m, t, m2 in ([(5, 3, 4), (9, 8, 8), (16, 11, 3)] if quick else [(a, t, b) for a in (1, 5, 8, 9, 16, 20) for t in sorted(set([0, a // 2, max(a - 1, 0), a, (a // 8) * 8])) for b in (1, 9)]):
+    for m, t, m2 in ([(5, 3, 4), (9, 8, 8), (16, 11, 3)] if quick else [(5, 3, 4), (9, 8, 8), (16, 11, 3)] + [(a, t, b) for a in (1, 5, 8, 9, 16, 20) for t in sorted(set([0, a // 2, max(a - 1, 0), a, (a // 8) * 8])) for b in (1, 9)]):
         qs.append(Q('bitwriter_trunc_m%d_t%d_%d' % (m, t, m2), 'h_bits.c', {'MODE': 1, 'M': m, 'T': t, 'M2': m2}, unwind=m + m2 + 20, desc='BitWriter: %d bits, truncate(%d), %d more bits: packing continues at bit %d' % (m, t, m2, t), bounds='bits symbolic'))
-    for nb, mx in ([(4, 16)] if quick else [(1, 8), (4, 16), (6, 32), (9, 64)]):
+    for nb, mx in ([(4, 16)] if quick else [(1, 8), (4, 16), (6, 32), (8, 64)]):
         qs.append(Q('bitreader_n%d_s%d' % (nb, mx), 'h_bits.c', {'MODE': 2, 'NBYTES': nb, 'MAXSZ': mx}, unwind=max(mx, nb) + 4, timeout=600,
                     desc='BitReader over %d symbolic bytes: go/read/read/pread with sizes <= %d at any bit offset: MSB-first values, cursor arithmetic' % (nb, mx), bounds='reads inside the data only'))
-    for m in ([3, 12] if quick else [0, 1, 8, 9, 17, 24, 40, 64]):
+    for m in ([3, 12] if quick else [0, 1, 3, 8, 9, 12, 17, 24, 40, 64]):
         qs.append(Q('bit_roundtrip_m%d' % m, 'h_bits.c', {'MODE': 3, 'M': m}, unwind=m + 4, desc='BitWriter -> BitReader round trip of %d bits' % m, bounds='%d symbolic bits' % m))
     # harness 3: sequences (operation kinds are the cell, everything else symbolic)
     # (kinds, PO) ; PO = -1: positional-write offset symbolic, 0..4: offset cell (see h_seq.c)
@@ -81,7 +81,7 @@ def queries(tier):
         kinds = [0, 1, 2, 3, 4, 5, 6, 7, 8, 9]
         base = [(a,) for a in kinds + [10]] + [(a, b) for a in kinds for b in kinds] + [(10, 10), (10, 6), (0, 10), (10, 7)]
         base += [(0, 7, 1), (5, 7, 0), (6, 7, 6), (7, 7, 2), (2, 6, 5), (10, 3, 6), (4, 8, 9), (1, 5, 10), (6, 6, 6), (3, 0, 7), (7, 0, 7), (8, 7, 4), (1, 7, 5)]
-        base += [(1, 6, 7, 2), (0, 5, 6, 3), (7, 2, 7, 0), (6, 10, 4, 7), (9, 8, 1, 0), (2, 7, 0, 7)]
+        base += [(1, 6, 7, 2), (0, 5, 6, 3), (7, 2, 7, 0), (6, 10, 4, 7), (9, 8, 1, 0), (2, 7, 0, 7), (4, 10, 8)]
         seqs = []
         for sq in base:
             if 7 not in sq:
@@ -91,6 +91,8 @@ def queries(tier):
                 last_is_pput_only = all(x != 7 for x in sq[:-1])
                 if last_is_pput_only or sq in ((5, 7, 0), (1, 6, 7, 2)):
                     seqs.append((sq, -1))
+                if sq == (6, 10, 4, 7):
+                    continue  # 90-110 s per offset cell; the symbolic-offset query above covers them
                 for po in (range(5) if len(sq) == 3 else (0, 1, 3)):
                     if po in (1, 4) and any(sq[i] == 7 and i > 0 and sq[i - 1] == 6 for i in range(len(sq))):
                         continue  # the positional write would hit the terminator of the C string just written (excluded by the harness)
